@@ -46,8 +46,24 @@ PType(o, key) == IF o[key].j = "str" /\ o[key].v \in Kinds THEN [st |-> "valid",
                  ELSE [st |-> "invalid", v |-> "Count"]
 KeysOK(x, req, opt) == x.j = "obj" /\ req \subseteq DOMAIN x.v /\ DOMAIN x.v \subseteq req \cup opt
 Own(nm, parent) == IF nm = "" THEN parent ELSE nm
-Homog(ds) == \A i \in DOMAIN ds : ds[i] = ds[1]
-HomogSet(S) == \A a \in S, b \in S : a = b
+(* the children of one container must agree in kind, structure and hoisted name; an opaque child (empty sparse
+   container below) agrees with anything of its kind *)
+RECURSIVE NamesAlike(_, _)
+NamesAlike(a, b) ==      \* for descriptors that are CompatD: the same quantity names at every depth both know about
+  IF IsOpaque(a) \/ IsOpaque(b) THEN TRUE ELSE
+  /\ QName(a) = QName(b)
+  /\ CASE a.k \in LeafKinds -> TRUE
+       [] a.k = "Bin" -> NamesAlike(a.value, b.value) /\ NamesAlike(a.under, b.under)
+                         /\ NamesAlike(a.over, b.over) /\ NamesAlike(a.nan, b.nan)
+       [] a.k \in {"SparselyBin", "CentrallyBin", "IrregularlyBin", "Stack"} ->
+            NamesAlike(a.value, b.value) /\ NamesAlike(a.nan, b.nan)
+       [] a.k \in {"Categorize", "Fraction"} -> NamesAlike(a.value, b.value)
+       [] a.k = "Select" -> NamesAlike(a.cut, b.cut)
+       [] a.k \in {"Label", "UntypedLabel"} -> \A key \in DOMAIN a.pairs : NamesAlike(a.pairs[key], b.pairs[key])
+       [] a.k \in {"Index", "Branch"} -> \A i \in DOMAIN a.vals : NamesAlike(a.vals[i], b.vals[i])
+Alike(a, b) == CompatD(a, b) /\ NamesAlike(a, b)
+Homog(ds) == \A i \in DOMAIN ds : Alike(ds[i], ds[1])
+HomogSet(S) == \A a \in S, b \in S : Alike(a, b)
 
 (* descriptor of a child as far as a document determines it: kind, name and structure; the quantity itself is gone *)
 LeafD(kind, nm) == [k |-> kind, q |-> "?", nm |-> nm, fid |-> "", form |-> "none"]
@@ -76,7 +92,12 @@ PBag(x, parent) ==
   IN
   IF vs.j = "null" THEN Unspec
   ELSE IF vs.j = "bagvals" THEN
-       R(StAll(<<e.st, nm.st, StSet({PNum(vs.v[key]).st : key \in DOMAIN vs.v}), "unspec">>), d, DummyCont)
+       (* the canonical (already keyed) form, as ToDoc produces it *)
+       LET wst == StSet({PNum(vs.v[key]).st : key \in DOMAIN vs.v})
+           st0 == StAll(<<e.st, nm.st, wst>>)
+       IN R(st0, d, IF st0 # "valid" THEN DummyCont
+                    ELSE [k |-> "Bag", e |-> e.v, range |-> range, nm |-> d.nm,
+                          vals |-> [key \in DOMAIN vs.v |-> PNum(vs.v[key]).v]])
   ELSE IF vs.j # "arr" THEN Bad
   ELSE IF \E i \in DOMAIN vs.v : ~KeysOK(vs.v[i], {"w", "v"}, {}) THEN Bad
   ELSE LET ks == [i \in DOMAIN vs.v |-> PBagKey(vs.v[i].v["v"])]
@@ -148,13 +169,13 @@ P(kind, x, parent) ==
                 document must be refused - and any other text is left unspecified *)
              keyst == StSet({IF key \in IntKeys THEN "valid" ELSE IF key \in {"extra", "zz"} THEN "invalid" ELSE "unspec"
                              : key \in keys})
-             vd == IF keys = {} THEN (IF bt.v = "Count" THEN DummyDesc ELSE LeafD(bt.v, bn.v))
+             (* without a bin the document states only the child's kind (and name): an opaque child, as in Forget *)
+             vd == IF keys = {} THEN (IF bt.v = "Count" THEN DummyDesc ELSE [Opaque(bt.v) EXCEPT !.nm = bn.v])
                    ELSE bs[CHOOSE key \in keys : TRUE].d
              d == [k |-> "SparselyBin", q |-> "?", nm |-> Own(nm.v, parent), fid |-> "", form |-> "none",
                    width |-> w.v, origin |-> og.v, value |-> vd, nan |-> n.d] IN
          R(StAll(<<e.st, w.st, og.st, wpos, keyst, nm.st, bn.st, StSet({bs[key].st : key \in keys}), n.st,
                    IF HomogSet({bs[key].d : key \in keys}) THEN "valid" ELSE "unspec",
-                   IF keys = {} /\ bt.v \notin LeafKinds THEN "unspec" ELSE "valid",
                    IF keys = {} /\ bn.v # "" THEN "unspec" ELSE "valid">>), d,
            [k |-> "SparselyBin", e |-> e.v, width |-> w.v, origin |-> og.v, ctype |-> bt.v,
             bins |-> [key \in keys |-> bs[key].c], nan |-> n.c, nm |-> d.nm])
@@ -165,12 +186,12 @@ P(kind, x, parent) ==
          IF bt.st = "invalid" \/ o["bins"].j # "obj" THEN Bad ELSE
          LET keys == DOMAIN o["bins"].v
              bs == [key \in keys |-> P(bt.v, o["bins"].v[key], bn.v)]
-             vd == IF keys = {} THEN (IF bt.v = "Count" THEN DummyDesc ELSE LeafD(bt.v, bn.v))
+             (* without a bin the document states only the child's kind (and name): an opaque child, as in Forget *)
+             vd == IF keys = {} THEN (IF bt.v = "Count" THEN DummyDesc ELSE [Opaque(bt.v) EXCEPT !.nm = bn.v])
                    ELSE bs[CHOOSE key \in keys : TRUE].d
              d == [k |-> "Categorize", q |-> "?", nm |-> Own(nm.v, parent), fid |-> "", form |-> "none", value |-> vd] IN
          R(StAll(<<e.st, nm.st, bn.st, StSet({bs[key].st : key \in keys}),
                    IF HomogSet({bs[key].d : key \in keys}) THEN "valid" ELSE "unspec",
-                   IF keys = {} /\ bt.v \notin LeafKinds THEN "unspec" ELSE "valid",
                    IF keys = {} /\ bn.v # "" THEN "unspec" ELSE "valid">>), d,
            [k |-> "Categorize", e |-> e.v, ctype |-> bt.v, bins |-> [key \in keys |-> bs[key].c], nm |-> d.nm])
     [] kind \in {"CentrallyBin", "IrregularlyBin", "Stack"} ->
@@ -207,7 +228,7 @@ P(kind, x, parent) ==
          IF t.st = "invalid" THEN Bad ELSE
          LET nu == P(t.v, o["numerator"], sn.v) de == P(t.v, o["denominator"], sn.v)
              d == [k |-> kind, q |-> "?", nm |-> Own(nm.v, parent), fid |-> "", form |-> "none", value |-> nu.d] IN
-         R(StAll(<<e.st, nm.st, sn.st, nu.st, de.st, IF nu.d = de.d THEN "valid" ELSE "unspec">>), d,
+         R(StAll(<<e.st, nm.st, sn.st, nu.st, de.st, IF Alike(nu.d, de.d) THEN "valid" ELSE "unspec">>), d,
            [k |-> kind, e |-> e.v, num |-> nu.c, den |-> de.c, nm |-> d.nm])
     [] kind = "Select" ->
          IF ~KeysOK(x, {"entries", "sub:type", "data"}, {"name"}) THEN Bad ELSE
